@@ -29,7 +29,13 @@ RULE = ("Every standard output type the library signs (P2PKH, P2SH m-of-n, P2WPK
         "tampered control blocks; DER integers of 31/32/33 bytes; scripts at the push-opcode and compact-size "
         "boundaries; two inputs with one script; nested witness programs. Library helpers: TapLeaf/TapBranch "
         "control blocks, initialize/finalize_p2tr_multisig for every signer subset and their misuse, sign_input, "
-        "Tx.verify, library signatures whose r/s start with 00/01.")
+        "Tx.verify, library signatures whose r/s start with 00/01. Construction paths other than Tx.parse: "
+        "hand-signed transactions whose inputs are ALL spends of different kinds / hash types / sequences, built "
+        "with the constructors (explicit, defaults filled in place), looked up through TxFetcher.cache, from a "
+        "legacy serialisation, cloned; Tx.verify() against verify_input(i) with each input invalid in turn (also "
+        "one script spent twice), fee at / one below the BIP141 virtual size and negative; sign_* / sign_input / "
+        "get_sig_* with a wrong key, then the right key on the same object, hash types and defaulted script "
+        "arguments; byte classes of witness version, leaf version, annex, hash-type byte and output key.")
 TRUSTED = ["the digests tx.sig_hash(i, hash_type) are taken from the implementation and handed to the model as a "
            "table (their correctness is property C05)",
            "hashlib for hash160/sha256/tagged hashes"]
@@ -1916,7 +1922,7 @@ def p_all_inputs(salt, plan, style, bad, fee_mode):
             if got is not True:
                 return "Tx.verify() is %r for a transaction whose inputs are all properly signed (%s); verify_input per input: %s" % (
                     got, what, [verdict(tx, i) for i in range(n)])
-            i = salt % n
+            i = 2 if plan == 1 else salt % n          # plan 1: the script-path input with an annex
             if not verdict(tx, i):
                 return "verify_input(%d) is not True after Tx.verify() was True on the same object (%s)" % (i, what)
             if style in (1, 3):
@@ -2158,6 +2164,27 @@ def gen_entry(ctx):
         yield from emit(sp, [b"", s50], False, "an empty item and a valid key-path signature starting with 50 as the last item")
     else:
         ctx.label("classes/no-nonce-found")
+    # hash-type byte classes of a taproot signature: an explicit 00, undefined values (the message is the
+    # BIP341 message with that byte, which is what an implementation without the check would hash)
+    d0 = _c05.ref_sig_hash(sp.value([b""]), sp.spent, sp.idx, 0)
+    yield from emit(sp, [T.schnorr(d0[2], 0) + b"\x00"], False, "key path, default signature with an explicit 00 hash type byte", corr=True)
+    for ht in (0x04, 0x40) if quick else (0x04, 0x40, 0x7c, 0x08):
+        msg = d0[1][0][:1] + bytes([ht]) + d0[1][0][2:]
+        yield from emit(sp, [T.schnorr(_tag("TapSighash", msg), ht)], False, "key path, undefined hash type %#x signed over the message carrying it" % ht)
+    # ECDSA hash types outside the six standard ones are masked, not rejected (the model decides)
+    for c, (kind, ht) in enumerate((("p2pkh", 0x00), ("p2wpkh", 0x41), ("p2pkh", 0xff), ("p2wpkh", 0x04))):
+        if quick and c % 2 != salt % 2:
+            continue
+        sec = keys[c].sec()
+        if kind == "p2pkh":
+            spn = HSpend(r, [0x76, 0xa9, _h160(sec), 0x88, 0xac], (lambda items: (_push(items), [])), (2, 2, 1))
+        else:
+            spn = HSpend(r, [0, _h160(sec)], wit_only, (2, 2, 1))
+        yield from emit(spn, [keys[c].ecdsa(spn.digest(ht, [b"\x30" * 71, sec]), ht), sec], None, "%s, ECDSA hash type %#x" % (kind, ht))
+    # a v1 program behind p2sh is no taproot output
+    spk, place = wrap_script("p2sh", [0x51, T.xonly()])
+    spn = HSpend(r, spk, place, SHAPES[4])
+    yield from emit(spn, [], None, "p2sh redeem script OP_1 <32 bytes>, no witness")
     # leaf versions: the commitment is made with that version (the digest commits to it through the leaf hash)
     Kl = keys[2]
     for c, ver in enumerate((0xc2, 0xfe, 0x00, 0x50)):
